@@ -474,7 +474,12 @@ func jNode(rn *raft.RawNode) JNode {
 			Msgs: []JMsg{}, After: []JMsg{}, SOA: []JMsg{}, RoAcks: []JAck{}, RoUnc: []JRead{}, PendingReads: []JMsg{},
 			ReadStates: []JReadState{}, PrevSS: JSS{Role: "F"}}
 	}
-	s := rn.VerifState()
+	s, perr := safeState(rn)
+	if perr != "" {
+		dn := jNode(nil)
+		dn.Role = "X:" + perr // observation itself hit an internal assertion
+		return dn
+	}
 	n := JNode{
 		Up: true, Term: s.Term, Vote: s.Vote, Role: roleStr(s.State), Lead: s.Lead, IsLearner: s.IsLearner,
 		Commit: s.Commit, Applying: s.Applying, Applied: s.Applied,
@@ -556,4 +561,21 @@ func jReadyV(rd *raft.Ready) JReady {
 func jReady(rd *raft.Ready) *JReady {
 	r := jReadyV(rd)
 	return &r
+}
+
+// safeState reads the node's state; an internal assertion firing inside the
+// read-only accessors (possible only on an already corrupted log) is returned
+// as a string instead of crashing the harness.
+func safeState(rn *raft.RawNode) (st raft.VerifState, perr string) {
+	defer func() {
+		if r := recover(); r != nil {
+			perr = fmt.Sprint(r)
+		}
+	}()
+	return rn.VerifState(), ""
+}
+
+func safeIsLeader(rn *raft.RawNode) (l bool) {
+	defer func() { _ = recover() }()
+	return rn.BasicStatus().RaftState == raft.StateLeader
 }
